@@ -89,6 +89,7 @@ pub fn jobs(tier: Tier) -> Vec<Job> {
                 v.push(commit_job("c02-commit", c, &RunCfg::parallel(2), FINE, 1, true));
                 v.push(commit_job("c02-commit", c, &RunCfg::parallel(3), COARSE, 1, true));
             }
+            v.push(commit_job("c02-commit", &ds[0], &RunCfg::parallel(2), COARSE, 3, true));
             // the claim-to-lock windows need four deviations (seeded change C01-finality-lower-ts):
             // bound 4 on the chains whose re-executions add or drop write locations, 3 elsewhere
             for c in &ds {
